@@ -8,6 +8,7 @@ import (
 	"io/fs"
 	"net/http"
 	"strconv"
+	"syscall"
 
 	// imports required for go-digest
 	_ "crypto/sha256"
@@ -360,8 +361,8 @@ func (s *Server) referrerAdd(repo store.Repo, subject digest.Digest, desc types.
 // storageReadFailed reports whether err is a failure to access the storage,
 // rather than the answer that content does not exist or is not valid.
 func storageReadFailed(err error) bool {
-	var pe *fs.PathError
-	return errors.As(err, &pe) && !errors.Is(err, fs.ErrNotExist)
+	var en syscall.Errno
+	return errors.As(err, &en) && !errors.Is(err, fs.ErrNotExist)
 }
 
 // referrerDeleteUnknownSubject removes a manifest from every referrers response that lists it.
